@@ -31,9 +31,10 @@
   receive_progress / procedure / timeout details                   C03_details_receive_progress,
                                                                    C03_details_procedure, C03_details_timeout
   request id never used before towards that callee                 C03_inv_id_step, C03_inv_id_fresh (runs)
-  all chunks of a progressive call: same callee, same id           C03_first_chunk_records,
-                                                                   C03_invocation_persists,
-                                                                   C03_progressive_same_callee
+  all chunks of a progressive call: same callee, same id, same      C03_first_chunk_records,
+    registration id                                                  C03_invocation_persists,
+                                                                   C03_progressive_same_callee,
+                                                                   C03_invocation_reg_recorded
   answer forwarded only to the caller of that call;                C03_answer_routing_owner_yield,
     a non-owner's answer has no effect                             C03_answer_routing_owner_error,
                                                                    C03_answer_routing_foreign_yield,
@@ -114,8 +115,8 @@ theorem C03_pick_member {reg reg' : Reg} {rnd : Nat} {c : SessKey} (h : pickCall
     * for the first chunk: to the callee chosen by `pickCallee` among the callees of the registration found by
       `matchProcedure`, with that registration's id, the next id of the callee's generator, the details
       `invDetails …`, arguments and keyword arguments unchanged;
-    * for a later chunk of a pending progressive call: to the stored callee under the stored invocation id, with
-      the id of the registration the chunk's URI resolves to, details `{progress}`, payload unchanged. -/
+    * for a later chunk of a pending progressive call: to the stored callee under the stored invocation id and
+      the registration id stored at the first chunk, details `{progress}`, payload unchanged. -/
 theorem C03_invocation_fields {env : DEnv} {s : DState} (h : DealerInv s) (caller : SessKey) (req : Nat) (opts : Dict)
     (proc : String) (args : List WVal) (kw : Dict) (rnd : Nat) (x : Send)
     (hx : x ∈ (syncCall env s caller req opts proc args kw rnd).sends) (hi : x.msg.isInvocation = true) :
@@ -181,8 +182,8 @@ theorem C03_inv_id_step {s : DState} {o : DOut} (h : DealerInv s) (st : DStep s 
         | false => rfl
         | true =>
           exfalso
-          rw [syncCall_eq, hmm] at hs
-          simp only [hne, Bool.false_eq_true, if_false, hq, if_true] at hs
+          rw [syncCall_eq, hb] at hs
+          simp only [hmm, hne, Bool.false_eq_true, if_false, hq, if_true, progressAbort] at hs
           simp only [List.cons.injEq, and_true] at hs
           have := congrArg (fun x => x.msg.isInvocation) hs
           simp [abortMsg, Msg.isInvocation] at this
@@ -198,7 +199,7 @@ theorem C03_inv_id_step {s : DState} {o : DOut} (h : DealerInv s) (st : DStep s 
       rw [hvs'] at this
       show v.id.req < genOf s.invGen callee + 1
       omega
-  | later reg iid v0 hmm hb hfi hf =>
+  | later iid v0 hb hfi hf =>
     right
     simp only [Msg.invocation.injEq] at hm
     obtain ⟨rfl, _⟩ := hm
@@ -235,7 +236,8 @@ theorem C03_inv_id_fresh {s s' : DState} {tr : List (DState × DOut)} (run : Run
 
 /-! ### progressive call invocations: same callee, same id -/
 
-/-- The accepted first chunk stores exactly the callee and invocation id its INVOCATION was sent with. -/
+/-- The accepted first chunk stores exactly the callee, the invocation id and the registration id its INVOCATION
+    was sent with (and the registration's `forward_timeout` setting). -/
 theorem C03_first_chunk_records {env : DEnv} {s : DState} (h : DealerInv s) {caller : SessKey} {req : Nat} {opts : Dict}
     {proc : String} (args : List WVal) (kw : Dict) {rnd : Nat} {reg reg' : Reg} {callee : SessKey}
     (hm : s.d.matchProcedure proc = some reg) (hb : s.d.byCall? ⟨caller, req⟩ = none)
@@ -243,58 +245,71 @@ theorem C03_first_chunk_records {env : DEnv} {s : DState} (h : DealerInv s) {cal
     (hp : pickCallee reg rnd = some (callee, reg'))
     (hr : callRefusal env s.d.allowDisclose reg caller callee opts = none) (hf : env.full callee = false) :
     ∃ v ∈ (syncCall env s caller req opts proc args kw rnd).st.d.invs,
-      v.callId = ⟨caller, req⟩ ∧ v.id = ⟨callee, genOf s.invGen callee + 1⟩ ∧ v.callee = callee := by
+      v.callId = ⟨caller, req⟩ ∧ v.id = ⟨callee, genOf s.invGen callee + 1⟩ ∧ v.callee = callee ∧
+      v.regId = reg.id ∧ v.fwdTimeout = reg.fwdTimeout := by
   have hne : reg.callees.isEmpty = false := by
     have := (h.reg.regs.callees reg (matchProcedure_mem hm)).1
     cases hx : reg.callees with
     | nil => exact absurd hx this
     | cons _ _ => rfl
   rw [syncCall_first args kw hm hne hprog hb hp, firstChunk_ok args kw reg' hr hf]
-  have hmem : newInvk s caller req callee opts ∈
-      (recordCall { s with d := s.d.setReg reg' } (newInvk s caller req callee opts) callee).d.invs := by
+  have hmem : newInvk s reg caller req callee opts ∈
+      (recordCall { s with d := s.d.setReg reg' } (newInvk s reg caller req callee opts) callee).d.invs := by
     show _ ∈ _ ++ [_]
     exact List.mem_append_right _ (List.mem_singleton.2 rfl)
   simp only
   by_cases hpos : 0 < routerTimeout env reg callee opts
   · rw [armTimer_pos hpos]
-    refine ⟨{ newInvk s caller req callee opts with timer := some (s.nextTimer + 1) }, ?_, rfl,
-      newInvk_id s caller req callee opts, rfl⟩
+    refine ⟨{ newInvk s reg caller req callee opts with timer := some (s.nextTimer + 1) }, ?_, rfl,
+      newInvk_id s reg caller req callee opts, rfl, rfl, rfl⟩
     show _ ∈ (Dealer.setInv _ _).invs
     unfold Dealer.setInv
     simp only
     exact (mem_map_update (f := fun x : Invk => x.id)
-      (u := fun _ => { newInvk s caller req callee opts with timer := some (s.nextTimer + 1) })).2
+      (u := fun _ => { newInvk s reg caller req callee opts with timer := some (s.nextTimer + 1) })).2
       (Or.inr ⟨_, hmem, rfl, rfl⟩)
   · have : routerTimeout env reg callee opts = 0 := by omega
     rw [this, armTimer_zero]
-    exact ⟨_, hmem, rfl, newInvk_id s caller req callee opts, rfl⟩
+    exact ⟨_, hmem, rfl, newInvk_id s reg caller req callee opts, rfl, rfl, rfl⟩
 
-/-- While a call stays pending its stored invocation keeps its id and its callee, whatever steps happen. -/
+/-- While a call stays pending its stored invocation keeps its id, its callee and the recorded registration
+    (id and `forward_timeout`), whatever steps happen. -/
 theorem C03_invocation_persists {s : DState} {o : DOut} (h : DealerInv s) (st : DStep s o) {v v' : Invk}
     (hv : v ∈ s.d.invs) (hv' : v' ∈ o.st.d.invs) (hc : v'.callId = v.callId) :
-    v'.id = v.id ∧ v'.callee = v.callee := by
+    v'.id = v.id ∧ v'.callee = v.callee ∧ v'.regId = v.regId ∧ v'.fwdTimeout = v.fwdTimeout := by
   rcases st.invs_frame h v' hv' with ⟨w, hw, hs⟩ | ⟨hnew, _⟩
   · simp only [Invk.shapeC, Prod.mk.injEq] at hs
     have : w = v := nodup_map_inj h.call.invCalls hw hv (hs.2.1.trans hc)
     subst this
-    exact ⟨hs.1.symm, hs.2.2.symm⟩
+    exact ⟨hs.1.symm, hs.2.2.1.symm, hs.2.2.2.1.symm, hs.2.2.2.2.symm⟩
   · exact absurd (hc ▸ (h.call.inv_call hv).1) hnew
 
 /-- A later chunk of a pending progressive call goes to the callee stored for that call, under the stored
-    invocation id, as the only message of the step. -/
+    invocation id and the stored registration id — whatever URI the chunk names and whether or not the callee is
+    still registered — with details `{progress}` and the payload unchanged, as the only message of the step. -/
 theorem C03_progressive_same_callee {env : DEnv} {s : DState} (h : DealerInv s) {v : Invk} (hv : v ∈ s.d.invs)
     (opts : Dict) (proc : String) (args : List WVal) (kw : Dict) (rnd : Nat) (x : Send)
     (hx : x ∈ (syncCall env s v.callId.sess v.callId.req opts proc args kw rnd).sends) (hi : x.msg.isInvocation = true) :
-    ∃ reg, s.d.matchProcedure proc = some reg ∧
-      x = ⟨v.callee, .invocation v.id.req reg.id [(OptProgress, .bool (opts.optFlag OptProgress))] args kw⟩ := by
-  obtain ⟨_, hform⟩ := syncCall_invocations h v.callId.sess v.callId.req opts proc args kw rnd x hx hi
+    x = ⟨v.callee, .invocation v.id.req v.regId [(OptProgress, .bool (opts.optFlag OptProgress))] args kw⟩ ∧
+      (syncCall env s v.callId.sess v.callId.req opts proc args kw rnd).sends = [x] := by
+  obtain ⟨hs, hform⟩ := syncCall_invocations h v.callId.sess v.callId.req opts proc args kw rnd x hx hi
   have hb := (h.call.inv_call hv).2.1
   cases hform with
   | first reg reg' callee hmm hb' hp hr hf => rw [hb] at hb'; cases hb'
-  | later reg iid v0 hmm hb' hfi hf =>
+  | later iid v0 hb' hfi hf =>
     rw [hb] at hb'; cases hb'
     rw [(h.call.inv_call hv).2.2] at hfi; cases hfi
-    exact ⟨reg, hmm, rfl⟩
+    exact ⟨rfl, hs⟩
+
+/-- The registration id recorded in a stored invocation is the id of a registration that had the invocation's
+    callee among its callees when the invocation was created (it may have been unregistered since). -/
+theorem C03_invocation_reg_recorded {s : DState} {o : DOut} (h : DealerInv s) (st : DStep s o) {v' : Invk}
+    (hv' : v' ∈ o.st.d.invs) (hnew : ∀ v ∈ s.d.invs, v.callId ≠ v'.callId) :
+    calleeRel s.d.regs v'.regId v'.callee := by
+  rcases st.invs_frame h v' hv' with ⟨w, hw, hs⟩ | ⟨_, _, _, hc⟩
+  · simp only [Invk.shapeC, Prod.mk.injEq] at hs
+    exact absurd hs.2.1 (hnew w hw)
+  · exact hc
 
 example : (syncCall Ex.env50 Ex.sProgT 2 8 [(OptProgress, .bool true)] "p" [] [] 0).sends.map
     (fun x => (x.to, x.msg.typeCode)) = [(1, 68)] := by decide +kernel
@@ -420,10 +435,10 @@ theorem C03_not_callee_persists {s : DState} {o : DOut} (h : DealerInv s) (st : 
     (hreg : ¬ IsRegisterStep s o k) (h1 : ∀ id, ¬ calleeRel s.d.regs id k) (h2 : ∀ v ∈ s.d.invs, v.callee ≠ k) :
     (∀ id, ¬ calleeRel o.st.d.regs id k) ∧ ∀ v ∈ o.st.d.invs, v.callee ≠ k := by
   refine ⟨fun id hc => (st.calleeRel_frame h id k hc).elim (h1 id) hreg, fun v' hv' hk => ?_⟩
-  rcases st.invs_frame h v' hv' with ⟨w, hw, hs⟩ | ⟨_, _, _, id, hc⟩
+  rcases st.invs_frame h v' hv' with ⟨w, hw, hs⟩ | ⟨_, _, _, hc⟩
   · simp only [Invk.shapeC, Prod.mk.injEq] at hs
-    exact h2 w hw (hs.2.2.trans hk)
-  · exact h1 id (hk ▸ hc)
+    exact h2 w hw (hs.2.2.1.trans hk)
+  · exact h1 v'.regId (hk ▸ hc)
 
 /-- Hence no CALL produces an INVOCATION to such a session. -/
 theorem C03_no_invocation_to_gone {env : DEnv} {s : DState} (h : DealerInv s) (k : SessKey)
@@ -435,7 +450,7 @@ theorem C03_no_invocation_to_gone {env : DEnv} {s : DState} (h : DealerInv s) (k
   cases hform with
   | first reg reg' callee hmm hb hp hr hf =>
     exact h1 reg.id ⟨reg, matchProcedure_mem hmm, rfl, hk ▸ (pickCallee_mem hp).1⟩
-  | later reg iid v0 hmm hb hfi hf =>
+  | later iid v0 hb hfi hf =>
     exact h2 v0 (findInv_some_mem hfi).1 hk
 
 /-- session 1 leaves `Ex.sCall`: no registration is left -/
